@@ -4,7 +4,7 @@ Decided for all Unicode strings of any length: the languages are regular, two co
 the partition induced by the patterns' atoms are indistinguishable to every pattern, so reachability on the
 product DFA over classes is complete.  The automata are bound to the real compiled patterns by replaying access
 strings, their one-symbol extensions and all short strings through `re`."""
-import itertools, time
+import itertools, time, os
 from vlib import common, rxmc
 from vlib.common import Report, Violation, HarnessError, Acc, pmap, merge
 
@@ -79,10 +79,85 @@ def _short_work(chunk):
     return n, bad
 
 
+def run_fallback(tier, rep, reason):
+    """The patterns of this tree use a construct the automata do not model.  Verdict by bounded enumeration instead: candidates are generated from the
+    syntax trees of all patterns involved with the unmodelled constructs over-approximated (both arms of a conditional, look-arounds dropped), plus
+    their one-character deletions, doublings and replacements; every candidate is put to the REAL compiled patterns, which are the only judge."""
+    rxmc.LENIENT = True
+    try:
+        P = rxmc.load_patterns()
+        A = rxmc.Alphabet(P)
+        names = sorted(set(UNIONS) | set(x for v in UNIONS.values() for x in v) | set(KINDS))
+        cand = {}
+        for n in names:
+            for w in rxmc.enumerate_language(A, P[n], pairs=True)[0]:
+                cand[w] = 1
+        reps = [A.rep(ci) for ci in range(len(A.classes))]
+        base = list(cand)
+        for w in base:
+            if len(w) > 12:
+                continue
+            for i in range(len(w)):
+                cand[w[:i] + w[i + 1:]] = 1
+                cand[w[:i] + w[i] + w[i:]] = 1
+            if tier == 'thorough' or len(w) <= 6:
+                for i in range(len(w)):
+                    for r in reps:
+                        cand[w[:i] + r + w[i + 1:]] = 1
+            for r in reps:
+                cand[w + r] = 1
+    finally:
+        rxmc.LENIENT = False
+    C = list(cand)
+    ncmp = 0
+    for comp, parts in UNIONS.items():
+        nbad = 0
+        for w in C:
+            ncmp += 1 + len(parts)
+            a0 = real(P, comp, w)
+            acc = [p for p in parts if real(P, p, w)]
+            if a0 != bool(acc):
+                nbad += 1
+                if nbad <= 3:
+                    which = 'composite-accepts-string-no-part-accepts' if a0 else 'part-accepts-string-composite-rejects'
+                    rep.add_violation(Violation('union:%s:%s' % (comp, which), dict(composite=comp, string=w),
+                                                '%s %s %r; parts accepting: %r' % (comp, 'accepts' if a0 else 'rejects', w, acc)))
+        rep.part('union %s (bounded, real matcher)' % comp, candidates=len(C), mismatching_candidates=nbad)
+    for x, y in itertools.combinations(KINDS, 2):
+        nbad = 0
+        for w in C:
+            ncmp += 2
+            if real(P, x, w) and real(P, y, w):
+                nbad += 1
+                if nbad <= 3:
+                    rep.add_violation(Violation('overlap:%s&%s' % (x, y), dict(string=w), '%r is accepted by both %s and %s' % (w, x, y)))
+        rep.part('disjoint %s x %s (bounded, real matcher)' % (x, y), candidates=len(C), jointly_accepted=nbad)
+    c = rep.coverage
+    c['states'] = len(C)
+    c['transitions'] = ncmp
+    c['traces_validated_against_impl'] = ncmp
+    c['evaluations'] = ncmp
+    c['distinct_nontrivial'] = len(C)
+    c['rule'] = ('FALLBACK: %s. Candidate strings generated from the syntax trees of all patterns (unmodelled constructs over-approximated) and their one-character '
+                 'deletions, doublings, replacements and extensions; each candidate decided by the real compiled patterns' % reason)
+    c['exhaustive'] = False
+    c.setdefault('caps_hit', []).append('automata not applicable on this tree (%s): bounded candidate enumeration, not all strings' % reason)
+    rep.sample(dict(fallback=reason, candidates=len(C), examples=C[:8]))
+    return rep.finish()
+
+
 def run(tier):
     common.bind_repo()
     rep = Report(PID, tier, 'model_checking')
-    P, A, D = setup()
+    try:
+        if os.environ.get('VERIF_C04_FORCE_FALLBACK'):
+            raise HarnessError('unsupported: fallback forced by VERIF_C04_FORCE_FALLBACK (self-test of the fallback on a tree the automata can handle)')
+        P, A, D = setup()
+    except HarnessError as e:
+        if 'unsupported' not in str(e) and 'not supported' not in str(e):
+            raise
+        _G.clear()
+        return run_fallback(tier, rep, str(e))
     missing = [n for n in set(UNIONS) | set(x for v in UNIONS.values() for x in v) if n not in P]
     if missing:
         raise HarnessError('patterns missing from athlib.codes: %r' % missing)
